@@ -218,6 +218,7 @@ pub fn run_jobs(ctx: &crate::ctx::Ctx, tier: &str, jobs: Vec<Job>, deadlock_key:
                 sum.per_harness.push(json!({
                     "harness": job.name, "schedules": schedules, "complete": complete,
                     "secs": (secs * 100.0).round() / 100.0, "outcomes": outcomes,
+                    "preemption_bound": job.bound,
                 }));
             }
             ChildResult::Violation { key, what, schedule } => {
